@@ -689,8 +689,10 @@ pub fn forced_cycle(g: &mut G, index: u64) -> Scenario {
                 1 => actors[0].on_start = vec![ask],
                 2 => actors[0].on_run = vec![RunScript { steps: vec![ask], out: RunOut::False }],
                 _ => {
+                    // on_stop reached by a graceful stop or by a kill (different branches of the actor loop)
                     actors[0].on_stop = vec![ask];
-                    clients.push(vec![Op::Sleep(g.range(0, 2)), Op::Stop { h: 0 }]);
+                    let end = if g.chance(500) { Op::Stop { h: 0 } } else { Op::Kill { h: 0 } };
+                    clients.push(vec![Op::Sleep(g.range(0, 2)), end]);
                 }
             }
         }
@@ -716,7 +718,7 @@ pub fn forced_cycle(g: &mut G, index: u64) -> Scenario {
             }
             let mut c = vec![];
             for i in 0..len {
-                c.push(Op::Stop { h: i as u32 });
+                c.push(if g.chance(650) { Op::Stop { h: i as u32 } } else { Op::Kill { h: i as u32 } });
             }
             if g.chance(500) {
                 clients.push(c);
